@@ -98,3 +98,36 @@ def decode(structure):
 def level_of(structure, pos):
     c = structure[pos - 1]
     return OPEN.index(c) if c in OPEN else CLOSE.index(c)
+
+
+def concat(*ps):
+    out = []
+    for p in ps:
+        off = len(out)
+        out += [x + off if x else 0 for x in p]
+    return tuple(out)
+
+
+def stretch(pairing, lens):
+    """replace every pair of `pairing` (one per stem expected; works for any pairing) by a stacked run of the given length"""
+    ps = sorted(pairs_of(pairing))
+    n = len(pairing)
+    # width of each original position: positions that open/close pair k get lens[k]
+    width = [1] * (n + 1)
+    for k, (i, j) in enumerate(ps):
+        width[i] = width[j] = lens[k % len(lens)]
+    start = [0] * (n + 2)
+    for pos in range(1, n + 1):
+        start[pos + 1] = start[pos] + width[pos]
+    total = start[n + 1]
+    out = [0] * (total + 1)
+    for k, (i, j) in enumerate(ps):
+        w = lens[k % len(lens)]
+        for t in range(w):
+            a = start[i] + 1 + t
+            b = start[j] + w - t
+            out[a], out[b] = b, a
+    return tuple(out[1:])
+
+
+HAIRPIN = (3, 0, 1)
